@@ -250,6 +250,6 @@ func TestVerifC06MeasureWriter(t *testing.T) {
 			}
 			return nil
 		},
-		MinLabelFrac: map[string]float64{">= 2 segments": 0.5, "restart": 0.3},
+		MinLabelFrac: map[string]float64{">= 2 segments": 0.3, "restart": 0.15},
 	})
 }
